@@ -25,6 +25,7 @@ class References:
       A list of lines.
       The lines themselves can be modified, but the list is immutable.
     """
+    self._check_extremity(extremity)
     return getattr(self, "dovetails_{}".format(extremity))
 
   @property
@@ -38,6 +39,7 @@ class References:
     """
     References to the gap lines which involve the segment.
     """
+    self._check_extremity(extremity)
     return getattr(self, "gaps_{}".format(extremity))
 
   @property
@@ -115,7 +117,14 @@ class References:
              if id(l) not in seen and not seen.add(id(l))]
 
   def neighbours_of_end(self, extremity):
+    self._check_extremity(extremity)
     return getattr(self, "neighbours_{}".format(extremity))
+
+  @staticmethod
+  def _check_extremity(extremity):
+    if extremity not in ["L", "R"]:
+      raise gfapy.ArgumentError(
+        "The end of a segment is L or R ({} found)".format(repr(extremity)))
 
   @property
   def containers(self):
